@@ -513,15 +513,25 @@ func runPSI(line []byte, rec *recorder) {
 			sec := &astits.PSISection{Header: &astits.PSISectionHeader{TableID: astits.PSITableID(m.TID), SectionSyntaxIndicator: m.SSI, PrivateBit: m.Priv, SectionLength: uint16(1 + r.intn(100))},
 				Syntax: &astits.PSISectionSyntax{Header: &astits.PSISectionSyntaxHeader{TableIDExtension: uint16(m.Ext), VersionNumber: uint8(m.Ver), CurrentNextIndicator: m.CNI,
 					SectionNumber: uint8(m.SN), LastSectionNumber: uint8(m.LSN)}, Data: &astits.PSISectionSyntaxData{PAT: m.PAT, PMT: m.PMT}}}
+			secs := []*astits.PSISection{sec}
+			vals := []M{encTableModel(m)}
+			for extra := r.pick(0, 0, 1, 2); extra > 0; extra-- { // several sections in one writePSIData call
+				k2 := []string{"pat", "pmt"}[r.intn(2)]
+				m2 := randTable(r, k2, r.intn(4), r.pick(0, 10))
+				secs = append(secs, &astits.PSISection{Header: &astits.PSISectionHeader{TableID: astits.PSITableID(m2.TID), SectionSyntaxIndicator: m2.SSI, PrivateBit: m2.Priv, SectionLength: 1},
+					Syntax: &astits.PSISectionSyntax{Header: &astits.PSISectionSyntaxHeader{TableIDExtension: uint16(m2.Ext), VersionNumber: uint8(m2.Ver), CurrentNextIndicator: m2.CNI,
+						SectionNumber: uint8(m2.SN), LastSectionNumber: uint8(m2.LSN)}, Data: &astits.PSISectionSyntaxData{PAT: m2.PAT, PMT: m2.PMT}}})
+				vals = append(vals, encTableModel(m2))
+			}
 			var wb []byte
 			var n int
 			var err error
 			if pn := safeCall(func() {
-				wb, n, err = astits.VerifWritePSIData(&astits.PSIData{PointerField: ptr, Sections: []*astits.PSISection{sec}})
+				wb, n, err = astits.VerifWritePSIData(&astits.PSIData{PointerField: ptr, Sections: secs})
 			}); pn != nil {
 				err = fmt.Errorf("panic %v", pn)
 			}
-			rec.ev(M{"ev": "wvec", "class": k + "-writer", "ptr": ptr, "secs": []M{encTableModel(m)}, "wb": ints(wb), "wn": n, "werr": errStr(err)})
+			rec.ev(M{"ev": "wvec", "class": k + "-writer", "ptr": ptr, "secs": vals, "wb": ints(wb), "wn": n, "werr": errStr(err), "nsec": len(secs)})
 		}
 	case "muxer": // the PAT and PMT the Muxer itself emits
 		for i := 0; i < sc.N; i++ {
